@@ -27,7 +27,7 @@ func init() {
 			"tokens are supplied explicitly (frac.DocProvider), so tokenizer questions are out of scope here (C10/C11)",
 			"from/to < 2^62; documents carry single IDs (no nested metas)",
 		},
-		Batches: tiered(96, 1200),
+		Batches: tiered(480, 9600),
 		Run:     runC02,
 		Timeout: timeoutFor(8*time.Minute, 40*time.Minute),
 	})
